@@ -165,6 +165,7 @@ def primitive_state():
 # operations that copy
 # ------------------------------------------------------------------------------------------------
 OPS = ["ctor_default", "ctor_nested", "ctor_module", "with_module", "with_num_item", "deepcopy_flat", "deepcopy_nested3", "deepcopy_outer_container",
+       "declare_attr_default_module",
        "deepcopy_nested_instances", "reset", "protect_direct", "user_deepcopy", "transform_nested", "caught_nested_abort",
        "user_registers", "user_unregisters", "user_registers_falsy"]
 USER_OPS = {"user_registers": "user", "user_unregisters": "absent", "user_registers_falsy": "user-falsy"}  # the application (un)registers its own reducer for modules
@@ -193,6 +194,16 @@ def do_op(name, st):
         c = copy.deepcopy(v)
         assert c["a"][0]["b"][0].n is sys
         st["copy"] = c
+    elif name == "declare_attr_default_module":
+        # a class whose DECLARATION holds modules inside an Attr(default=...): decorating / bootstrapping it copies the declaration
+        from typing import Any, List
+
+        from spec_classes import Attr, spec_class
+
+        Declared = spec_class(type("Declared", (), {"__annotations__": {"mods": List[Any]}, "mods": Attr(default=[sys, {"m": sys}])}))
+        d = Declared()
+        assert d.mods[0] is sys and d.mods[1]["m"] is sys
+        st["obj2"] = d
     elif name == "deepcopy_outer_container":
         # the USER's own copy.deepcopy of a container that holds an instance whose attribute holds modules inside containers:
         # the instance's __deepcopy__ is entered with a memo that already has entries
